@@ -787,21 +787,24 @@ func runC09(c *Ctx) {
 		// shrinking: wi decreases by an amount that is bounded by WriteLen()
 		for _, name := range []string{"UnreadByte", "ShrinkBy"} {
 			fn := m(name)
-			for _, a := range storesTo(fn, wi) {
-				bo, ok := stripConv(a.Val).(*ssa.BinOp)
+			// (the decrement may sit in a helper both share - retractWriteEnd(n): the amount is then the argument, the
+			// guards those of the call)
+			for _, a := range deepStoresTo(fn, wi) {
+				bo, ok := stripConv(a.Store.Val).(*ssa.BinOp)
 				if !ok || bo.Op != token.SUB || !loadOfField(bo.X, wi) {
-					c.bad(fn, "shrink", a.Instr.Pos(), name+" does not decrease wi by an amount")
+					c.bad(fn, "shrink", a.Store.Pos(), name+" does not decrease wi by an amount")
 					continue
 				}
+				amount := a.translate(bo.Y)
 				good := false
-				if k, isK := constInt(bo.Y); isK {
-					gs := guardSet(a.Instr.Block())
-					good = gs[cmpString(token.GTR, "WriteLen()", "0")] || gs[cmpString(token.GEQ, "WriteLen()", fmt.Sprint(k))] || gs[cmpString(token.NEQ, "WriteLen()", "0")]
-				} else if big, small, isMin := minOf(bo.Y); isMin {
+				if k, isK := constInt(amount); isK {
+					gs := guardSet(a.Site.Block())
+					good = (k == 1 && (gs[cmpString(token.GTR, "WriteLen()", "0")] || gs[cmpString(token.NEQ, "WriteLen()", "0")])) || gs[cmpString(token.GEQ, "WriteLen()", fmt.Sprint(k))]
+				} else if big, small, isMin := minOf(amount); isMin {
 					bs, ss := exprString(big, nil, 0), exprString(small, nil, 0)
 					good = bs == "WriteLen()" || ss == "WriteLen()"
 				}
-				c.check(good, fn, "shrink", a.Instr.Pos(), "the write area shrinks by at most WriteLen()", name+" can move wi below ri (the amount is not bounded by WriteLen()): committed, unread bytes are cut off")
+				c.check(good, fn, "shrink", a.Site.Pos(), "the write area shrinks by at most WriteLen()", name+" can move wi below ri (the amount is not bounded by WriteLen()): committed, unread bytes are cut off")
 			}
 		}
 		for _, name := range []string{"UnreadByte", "ShrinkBy"} {
